@@ -463,6 +463,91 @@ func TestCheck(t *testing.T) {
 			r.Sample(map[string]interface{}{"random_store_sequence": fmt.Sprint(seq[:12]) + "…"})
 		}
 	})
+	// large populations: hundreds of live ids per direction, fresh packet values
+	// (so "the last packet saved under that id" is identifiable), both directions
+	// of one MemorySession interleaved; listing compared as a set after every step
+	nb := r.Pick(60, 1500)
+	h.Parallel(nb, 16, func(i int) {
+		rng := r.Rand(fmt.Sprintf("c18-bulk-%d", i))
+		universe := []int{20, 40, 100, 400}[rng.Intn(4)]
+		steps := 200 + rng.Intn(1500)
+		s := session.NewMemorySession()
+		var mdl [2]map[packet.ID]packet.Generic
+		mdl[0], mdl[1] = map[packet.ID]packet.Generic{}, map[packet.ID]packet.Generic{}
+		maxLive := 0
+		// a phase bias lets populations grow well past a few dozen live ids
+		for k := 0; k < steps; k++ {
+			d := rng.Intn(2)
+			dir := session.Direction(d)
+			id := packet.ID(1 + rng.Intn(universe))
+			if rng.Intn(97) == 0 {
+				id = 65535
+			}
+			var what string
+			switch x := rng.Intn(10); {
+			case x < 6:
+				var pk packet.Generic
+				if rng.Intn(3) == 0 {
+					pk = &packet.Pubrel{ID: id}
+				} else {
+					pk = &packet.Publish{ID: id, Message: packet.Message{Topic: "t", QOS: 1, Payload: []byte(fmt.Sprintf("%d-%d", i, k))}}
+				}
+				_ = s.SavePacket(dir, pk)
+				mdl[d][id] = pk
+				what = fmt.Sprintf("Save(d%d,%d)", d, id)
+			case x < 8:
+				_ = s.DeletePacket(dir, id)
+				delete(mdl[d], id)
+				what = fmt.Sprintf("Delete(d%d,%d)", d, id)
+			case x < 9:
+				got, _ := s.LookupPacket(dir, id)
+				if got != mdl[d][id] && !(got == nil && mdl[d][id] == nil) {
+					r.Violation("store/bulk-lookup", fmt.Sprintf("bulk history #%d step %d: Lookup(d%d,%d) returned %v, the map model holds %v (%d/%d live ids)", i, k, d, id, got, mdl[d][id], len(mdl[0]), len(mdl[1])), nil)
+					return
+				}
+				what = "Lookup"
+			default:
+				if rng.Intn(40) == 0 {
+					if d == 0 {
+						s.Incoming.Reset()
+					} else {
+						s.Outgoing.Reset()
+					}
+					mdl[d] = map[packet.ID]packet.Generic{}
+					what = fmt.Sprintf("Reset(d%d)", d)
+				}
+			}
+			if len(mdl[0])+len(mdl[1]) > maxLive {
+				maxLive = len(mdl[0]) + len(mdl[1])
+			}
+			for dd := 0; dd < 2; dd++ {
+				all, _ := s.AllPackets(session.Direction(dd))
+				bad := len(all) != len(mdl[dd])
+				if !bad {
+					for _, pk := range all {
+						if pk == nil {
+							bad = true
+							break
+						}
+						pid, ok := packet.GetID(pk)
+						if !ok || mdl[dd][pid] != pk {
+							bad = true
+							break
+						}
+					}
+				}
+				if bad {
+					r.Violation("store/bulk-list", fmt.Sprintf("bulk history #%d (id universe %d) step %d %s: AllPackets(d%d) lists %d packets that are not exactly the %d packets last saved under the live ids of that direction (other direction holds %d)", i, universe, k, what, dd, len(all), len(mdl[dd]), len(mdl[1-dd])), map[string]interface{}{"history": i, "step": k, "op": what})
+					return
+				}
+			}
+		}
+		r.Eval()
+		if maxLive > 32 {
+			r.NonTrivial(fmt.Sprintf("bulk:%d", i))
+		}
+	})
+	r.Count("store_bulk_histories", int64(nb))
 	// NewPacketStoreWithPackets = saves in order
 	{
 		st := session.NewPacketStoreWithPackets([]packet.Generic{pool[0], pool[2], pool[1], pool[4]})
